@@ -617,8 +617,10 @@ def check_rk4(out, o, h, T, mu, deep):
     out.count(key=("rk4-order", h, T, o["rp"]), nontrivial=assessable, kind="rk4-order", assessable=assessable)
     if assessable:
         p = math.log2(es[-2] / es[-1])
-        if not (3.5 <= p <= 4.6):
-            out.fail("rk4-order", "observed convergence order of RK4 under step halving is not 4 (+-0.5)",
+        # one-sided: over whole numbers of revolutions the h^4 term of the global error nearly cancels and the observed
+        # order approaches 5 (4.90 on both pairs at e = 0.46, T = 2.9 periods); faster than 4 is not a violation
+        if not (3.5 <= p <= 6.5):
+            out.fail("rk4-order", "observed convergence order of RK4 under step halving is below 4 (-0.5) (or implausibly high)",
                      case_inp(o, h, T, method="rk4"), observed={"errors": es, "order": p}, expected=4)
     elif es[-1] > es[0] + 0.012:
         out.fail("rk4-converge", "halving the step increased the error", case_inp(o, h, T, method="rk4"), observed=es)
@@ -650,8 +652,8 @@ def check_euler(out, o, h, T, mu):
     out.count(key=("euler", h, Te, o["rp"]), nontrivial=assessable, kind="euler-order", assessable=assessable, direction="back" if T < 0 else "fwd")
     if assessable:
         p = math.log2(es[0] / es[1])
-        if not (0.7 <= p <= 1.3):
-            out.fail("euler-order", "observed convergence order of Euler under step halving is not 1 (+-0.3)",
+        if not (0.7 <= p <= 2.5):
+            out.fail("euler-order", "observed convergence order of Euler under step halving is below 1 (-0.3) (or implausibly high)",
                      case_inp(o, h, Te, method="euler"), observed={"errors": es, "order": p}, expected=1)
     nh = o["n_p"] * h / 4
     bound = 0.012 + 2.0 * o["rp"] * nh * (o["n_p"] * abs(Te)) * (1 + o["n_p"] * abs(Te)) * math.exp(o["n_p"] * abs(Te))
